@@ -137,6 +137,27 @@ Definition watches_otb (d : swap_data) (es : list effect) : bool :=
                     | EWatchConf txid vout _ _, Some o => String.eqb txid (ob_txid o) && (vout =? ob_vout o)
                     | _, _ => false end) es.
 
+(* The environment assumption of the theorems (hist_ok): a confirmation callback is delivered only
+   for a watch registered in the current process.  The scenario generator also fires the callback
+   at other times (a real watcher cannot); when the machine REACTS to such a callback (changes
+   state) the rest of the scenario is outside the assumption and is not judged. *)
+Definition has_watch (es : list effect) : bool :=
+  existsb (fun e => match e with EWatchConf _ _ _ _ => true | _ => false end) es.
+
+Fixpoint allowed_prefix (watched : bool) (steps : list obs_step) : list obs_step :=
+  match steps with
+  | [] => []
+  | s :: r =>
+      match os_input s with
+      | InTxConfirmed _ _ =>
+          if watched || String.eqb (m_cur (os_post s)) (m_cur (os_pre s))
+          then s :: allowed_prefix (watched || has_watch (os_effects s)) r
+          else []
+      | InRecover => s :: allowed_prefix (has_watch (os_effects s)) r
+      | _ => s :: allowed_prefix (watched || has_watch (os_effects s)) r
+      end
+  end.
+
 (* a claim payment happens only in a confirmation callback without error, for a watch on the
    announced outpoint registered since the last restart, or when a restart finds the swap in
    the paying state *)
@@ -156,11 +177,12 @@ Fixpoint c01_steps_ok (t : table) (watched : list effect) (steps : list obs_step
 
 Definition c01_monitor (c : fsm_case) : bool :=
   let dec := fun p => assoc_str p (sc_decode c) in
+  let steps := allowed_prefix false (sc_steps c) in
   forallb (fun s =>
     trace_okgb c01_gy (c01_spec_pb dec (sc_table c)) (m_data (os_pre s)) c01_y0 (os_effects s) &&
     trace_okgb c01_gy (c01_pb tl_consts_gen dec (sc_table c)) (m_data (os_pre s)) c01_y0 (os_effects s))
-    (sc_steps c)
-  && c01_steps_ok (sc_table c) [] (sc_steps c).
+    steps
+  && c01_steps_ok (sc_table c) [] steps.
 
 (* the reflective table check behind the theorems: either the table never runs the paying
    action (maker roles), or (taker roles) no state overwrites the agreement or the blinding key
